@@ -1,9 +1,10 @@
 """Contract for inference/requests/hmc.py: HMC.edit  (C28).
 
-Under contract: the real HMC.edit including its `kernel` closure (the scan body).  Abstracted (uninterpreted, assumption A7
-and listed in the evidence): selection_gradient (positions q = selected float choices, gradient of the score wrt q),
-sample_momenta / assess_momenta (standard normal momenta and their log-density), the leafwise arithmetic of
-`jtu.tree_map(lambda v, g: v + c * g, ...)` on opaque trees (a pure function of the lambda and the trees).
+Under contract: the real HMC.edit including its `kernel` closure (the scan body).  In the task `hmc.edit` the helpers are called
+through their contracts (modular verification): selection_gradient (positions q = selected choices, gradient of the score wrt
+q), sample_momenta / assess_momenta (standard normal momenta and their log-density); the helpers' own bodies are verified by the
+tasks hmc.kinetic_energy, hmc.sample_momenta, hmc.selection_gradient below.  Trusted: jax.grad (A7), tfd.Normal (A10), and the
+leafwise arithmetic of `jtu.tree_map(lambda v, g: v + c * g, ...)` on opaque trees (a pure function of the lambda and the trees).
 What is proved is the STRUCTURE of the leapfrog integrator: which gradient enters which half-kick, that the position update
 uses the half-kicked momenta, that the trace is updated with exactly the new positions, and the MH log ratio."""
 from pyvc.task import task
@@ -11,6 +12,7 @@ from pyvc.values import NativeFn, Obj, SBool, SInt, SReal, Stacked, TupleT, UVal
 from pyvc.interp_ops import zint
 from .common import *
 from .vmap import forall_i
+from .choice_map import obs
 
 H = "genjax._src.inference.requests.hmc"
 FUNCS = [H + ":HMC.edit", H + ":SafeHMC"]
@@ -189,6 +191,88 @@ def t_sample_momenta(E):
     E.prove("C28.sample_momenta.score_is_the_log_density_of_the_drawn_momenta",
             E.eq(score, SReal(lp_total(E, ma) + lp_total(E, mb) + lp_total(E, mc))))
     E.refutable("hmc.sample_momenta", ka == kb)
+
+
+@task("hmc.selection_gradient", props=["C28"], functions=HELPERS)
+def t_selection_gradient(E):
+    """selection_gradient(selection, trace, argdiffs) on a trace whose choices are {x, y, (s, z)} (reals), selection x | s:
+    positions = the selected choices; the function handed to jax.grad maps a position tree q to the model's assess score at
+    (q at the selected addresses, the trace's own values elsewhere, the primal arguments); the gradient tree has one entry per
+    selected choice.  jax.grad itself is A7."""
+    z3, T, I = E.z3, E.I.T, E.I
+    xv, yv, zv = E.real("x_val"), E.real("y_val"), E.real("z_val")
+    chm_ = E.call(CM + ":ChoiceMap.d", {"x": xv, "y": yv, ("s", "z"): zv})
+    S_ = E.cls(CM + ":Selection")
+    at = I.getattr(S_, "at")
+    sel = E.method(E.method(at, "__getitem__", ("x",)), "__or__", E.method(at, "__getitem__", ("s",)))
+    model = G(E, "model")
+    tr = T.abstract_trace("tr", g=model.t)
+    I.abstract_methods[("Trace", "get_choices")] = lambda I_, s: chm_
+    I.overrides["genjax._src.core.typing:static_check_supports_grad"] = lambda I_, v: isinstance(v, (SReal, float))
+    assessed = []
+
+    def assess(I_, g, sample, args):
+        assessed.append((sample, args))
+        return (SReal(E.ctx.fn("potential", U, z3.RealSort())(E.ctx.const("assess_call", U))), UVal(E.ctx.const("assess_ret", U)))
+    I.abstract_methods[("GenerativeFunction", "assess")] = assess
+    grads = []
+
+    def jax_grad(I_, f):
+        def g(I__, tree):
+            grads.append((f, tree))
+            from theory.externals import map_leaves
+            k = [0]
+
+            def leaf(v):
+                k[0] += 1
+                return SReal(E.ctx.const(f"dU_{k[0]}", z3.RealSort()))
+            return map_leaves(I__, leaf, tree)
+        return NativeFn("grad(f)", g)
+    I.ext["jax.grad"] = jax_grad
+    ad = E.opaque("argdiffs", "tuple")
+    E.assume(T.d_is_tree(ad.t))
+    values, gtree = E.call(H + ":selection_gradient", sel, tr, ad)
+    E.require("C28.selection_gradient.differentiates_one_function_once", len(grads) == 1)
+
+    def look(c, *addr):
+        v = E.method(E.method(c, "get_submap", *addr), "get_value")
+        return v
+    px, vx = obs(E, look(values, "x"))
+    pz, vz = obs(E, look(values, "s", "z"))
+    py, _ = obs(E, look(values, "y"))
+    E.prove("C28.selection_gradient.positions_are_exactly_the_selected_choices", E.And(
+        px, pz, E.Not(py), E.eq(vx, xv) if vx is not None else False, E.eq(vz, zv) if vz is not None else False))
+    # the potential: evaluate the differentiated function at fresh positions
+    f, gt = grads[0]
+    qx, qz = E.real("q_x"), E.real("q_z")
+    from theory.externals import map_leaves
+    fresh = iter([qx, qz])
+    order = []
+
+    def sub(v):
+        q = next(fresh)
+        order.append((v, q))
+        return q
+    qtree = map_leaves(I, sub, gt)
+    E.require("C28.selection_gradient.position_tree_has_one_leaf_per_selected_choice", len(order) == 2)
+    del assessed[:]
+    I.call(f, [qtree], {})
+    E.require("C28.selection_gradient.potential_is_one_assess_of_the_model", len(assessed) == 1)
+    sample, args = assessed[0]
+    qmap = {id(v): q for v, q in order}
+    q_of = lambda old: [q for v, q in order if v is old][0] if any(v is old for v, _ in order) else None
+    sx, svx = obs(E, look(sample, "x"))
+    sz, svz = obs(E, look(sample, "s", "z"))
+    sy, svy = obs(E, look(sample, "y"))
+    E.prove("C28.selection_gradient.potential_is_the_model_score_at_the_moved_selected_choices_and_the_kept_others", E.And(
+        sx, sz, sy, E.eq(svx, q_of(xv)) if (svx is not None and q_of(xv) is not None) else False,
+        E.eq(svz, q_of(zv)) if (svz is not None and q_of(zv) is not None) else False, E.eq(svy, yv) if svy is not None else False))
+    E.prove("C28.selection_gradient.potential_uses_the_primal_arguments", I.to_u(args) == T.primal_u(ad))
+    gx, gvx = obs(E, look(gtree, "x"))
+    gz, gvz = obs(E, look(gtree, "s", "z"))
+    gy, _ = obs(E, look(gtree, "y"))
+    E.prove("C28.selection_gradient.gradient_tree_has_an_entry_exactly_for_the_selected_choices", E.And(gx, gz, E.Not(gy)))
+    E.refutable("hmc.selection_gradient", E.eq(vx, yv) if vx is not None else False)
 
 
 @task("hmc.edit", props=["C28"], functions=FUNCS)
